@@ -210,6 +210,17 @@ pub const TEMPLATES: &[Template] = &[
     ..T0
   },
   Template {
+    name: "console-to-warn",
+    langs: JS,
+    severity: "hint",
+    message: "use console.warn for $A",
+    rule: "  pattern: console.log($A)\n",
+    fix: "console.warn($A)",
+    valid: &["log(1)"],
+    invalid: &["console.log(1)"],
+    ..T0
+  },
+  Template {
     name: "no-console-any",
     langs: JS,
     severity: "info",
